@@ -743,6 +743,58 @@ pub proof fn lemma_renum_lr_id(l: Seq<NodeId>, r: Seq<NodeId>, ni: Seq<Option<us
     if n > 0 { lemma_renum_lr_id(l, r, ni, n - 1); assert(ni[l[n - 1].0 as int] == Some(l[n - 1].0)); assert(ni[r[n - 1].0 as int] == Some(r[n - 1].0)); }
 }
 
+pub proof fn lemma_kept_len<T>(s: Seq<T>, rm: Seq<bool>, n: int)
+    requires 0 <= n <= s.len(), n <= rm.len()
+    ensures kept(s, rm, n).len() == n - cnt(rm, n)
+    decreases n
+{
+    if n > 0 { lemma_kept_len(s, rm, n - 1); }
+}
+pub proof fn lemma_cnt_mono(rm: Seq<bool>, i: int, n: int)
+    requires 0 <= i <= n <= rm.len()
+    ensures cnt(rm, i) <= cnt(rm, n), n - cnt(rm, n) >= i - cnt(rm, i), (i < n && !rm[i]) ==> n - cnt(rm, n) >= i - cnt(rm, i) + 1
+    decreases n - i
+{
+    if i < n { lemma_cnt_mono(rm, i, n - 1); if i < n - 1 { } }
+}
+/// every renumbered reference names a surviving node
+pub proof fn lemma_renum_ok(v: Seq<NodeId>, rm: Seq<bool>, ni: Seq<Option<usize>>, n0: int, m: int)
+    requires 0 <= m <= v.len(), ids_ok(v, n0), rm.len() == n0, ni.len() == n0, idx_ok(rm, ni, n0), n0 <= usize::MAX
+    ensures ids_ok(renum(v, ni, m), n0 - cnt(rm, n0))
+    decreases m
+{
+    if m > 0 {
+        lemma_renum_ok(v, rm, ni, n0, m - 1);
+        let x = v[m - 1].0 as int;
+        if !rm[x] { lemma_cnt_mono(rm, x, n0); lemma_cnt_le(rm, x); }
+    }
+}
+pub proof fn lemma_renum_lr_ok(l: Seq<NodeId>, r: Seq<NodeId>, rm: Seq<bool>, ni: Seq<Option<usize>>, n0: int, m: int)
+    requires 0 <= m <= l.len(), l.len() == r.len(), ids_ok(l, n0), ids_ok(r, n0), rm.len() == n0, ni.len() == n0, idx_ok(rm, ni, n0), n0 <= usize::MAX
+    ensures renum_l(l, r, ni, m).len() == renum_r(l, r, ni, m).len(), ids_ok(renum_l(l, r, ni, m), n0 - cnt(rm, n0)), ids_ok(renum_r(l, r, ni, m), n0 - cnt(rm, n0))
+    decreases m
+{
+    if m > 0 {
+        lemma_renum_lr_ok(l, r, rm, ni, n0, m - 1);
+        let x = l[m - 1].0 as int; let y = r[m - 1].0 as int;
+        if !rm[x] { lemma_cnt_mono(rm, x, n0); lemma_cnt_le(rm, x); }
+        if !rm[y] { lemma_cnt_mono(rm, y, n0); lemma_cnt_le(rm, y); }
+    }
+}
+/// deleting nodes of a well-formed lax hypergraph leaves a well-formed one
+pub proof fn lemma_node_deletion_wf<O, A>(old: Hypergraph<O, A>, new: Hypergraph<O, A>, rm: Seq<bool>, ni: Seq<Option<usize>>)
+    requires old.wf(), is_node_deletion(old, new, rm, ni), old.nodes@.len() <= usize::MAX
+    ensures new.wf()
+{
+    let n0 = old.nodes@.len() as int;
+    lemma_kept_len(old.nodes@, rm, n0);
+    assert forall|j: int| 0 <= j < new.adjacency@.len() implies ids_ok((#[trigger] new.adjacency@[j]).sources@, new.nodes@.len() as int) && ids_ok(new.adjacency@[j].targets@, new.nodes@.len() as int) by {
+        lemma_renum_ok(old.adjacency@[j].sources@, rm, ni, n0, old.adjacency@[j].sources@.len() as int);
+        lemma_renum_ok(old.adjacency@[j].targets@, rm, ni, n0, old.adjacency@[j].targets@.len() as int);
+    }
+    lemma_renum_lr_ok(old.quotient.0@, old.quotient.1@, rm, ni, n0, old.quotient.0@.len() as int);
+}
+
 /// C11: `new` is `old` with the nodes marked by rm deleted, `ni` the reported renumbering
 pub open spec fn is_node_deletion<O, A>(old: Hypergraph<O, A>, new: Hypergraph<O, A>, rm: Seq<bool>, ni: Seq<Option<usize>>) -> bool {
     let n = old.nodes@.len() as int;
